@@ -421,11 +421,18 @@ class Gen:
                     subs.append(('path', rng.choice(['nope', 'a.nope.x', 'zz.0'])))   # fails: skipped
                 elif r < 0.5:
                     subs.append(('fn', self.fn('const', None)))
+                elif r < 0.6 and self.skipstop and ctx in ('L', 'S', 'D'):
+                    # an alternative that *succeeds* with a marker: it wins, and the marker means what it means there
+                    subs.append(rng.choice([('fn', self.fn('skip')), ('val', SKIP), ('spec', ('fn', self.fn('skip'))),
+                                            ('coalesce', [('path', 'nope')], [('default', SKIP)])] +
+                                           ([] if ctx == 'D' else [('fn', self.fn('stop')), ('val', STOP)])))
                 else:
-                    subs.append(self.spec(value, depth - 1))
+                    subs.append(self.spec(value, depth - 1, ctx))
             opts = []
             r = rng.random()
-            if r < 0.3:
+            if r < 0.08 and self.skipstop and ctx in ('L', 'S', 'D'):
+                opts.append(('default', SKIP if ctx == 'D' else rng.choice([SKIP, STOP])))
+            elif r < 0.3:
                 opts.append(('default', rng.choice(['DFLT', None, 0])))
             elif r < 0.4:
                 opts.append(('default_factory', self.fn('const', 'FACTORY')))
@@ -443,14 +450,19 @@ class Gen:
             return ('call', self.fn('collect'), args, kwargs)
         if c == 'invoke':
             parts = []
-            for _ in range(rng.randint(1, 3)):
+            # keyword names include keys of the target, so that a star(kwargs=...) group taken from the target collides with
+            # explicit keywords given before and after it (groups are stacked in the order given)
+            names = ['p', 'q', 'r'] + [k for k in value if isinstance(k, str) and k.isidentifier()][:2]
+            for _ in range(rng.randint(1, 4)):
                 r = rng.random()
-                if r < 0.4:
+                if r < 0.35:
                     parts.append(('C', [rng.choice([1, 'c', None]) for _ in range(rng.randint(0, 2))],
-                                  [(kw, rng.randint(0, 9)) for kw in rng.sample(['p', 'q'], rng.randint(0, 1))]))
-                else:
+                                  [(kw, rng.randint(0, 9)) for kw in rng.sample(names, rng.randint(0, 2))]))
+                elif r < 0.75:
                     parts.append(('S', [self._path(value) for _ in range(rng.randint(0, 2))],
-                                  [(kw, self._path(value)) for kw in rng.sample(['p', 'q', 'r'], rng.randint(0, 2))]))
+                                  [(kw, self._path(value)) for kw in rng.sample(names, rng.randint(0, 2))]))
+                elif all(isinstance(k, str) and k.isidentifier() for k in value):
+                    parts.append(('*', None, ('t', [])))
             return ('invoke', self.fn('collect'), parts)
         if c == 'invoke-star':
             return ('invoke', self.fn('collect'), [('*', ('t', []), None), ('C', ['tail'], [])])
